@@ -1,4 +1,5 @@
 import SleapVerif.Lemmas.Toposort
+import SleapVerif.Model.Grouping
 /-!
 # C17 — every tree skeleton gets a complete, parent-before-child edge order
 
@@ -107,5 +108,31 @@ example : Arbo [(2,3),(0,1),(1,2),(1,4)] 0 := by
       rcases he with rfl | rfl | rfl | rfl <;> assumption }
 
 example : toposort [(2,3),(0,1),(1,2),(1,4)] = some [1,2,3,0] := by decide
+
+/-! ## why the order has to be parent-first
+
+`assign_connections_to_instances` (C08's model `Grouping.astep`, the four code cases literally) has
+no branch for "source peak unassigned, destination peak assigned": a connection met in that state is
+ignored.  That state arises exactly when an edge type is visited before the edge type leading into
+its source node, so an order that is not parent-first leaves the parent body part ungrouped.  (That
+the order of `toposort` never produces the state — and the instances then are the connected groups
+of matched parts — is C08's `assign_only_cases_1_2` / `assign_classes_eq_components`, which consume
+`toposort_parent_first`.) -/
+
+open SleapVerif.Grouping in
+/-- A connection whose destination peak is already assigned while its source peak is not changes
+    nothing: the source body part stays ungrouped. -/
+theorem child_before_parent_drops_parent (a : Assign) (s d : Peak) (i : Nat)
+    (hs : lookup a s = none) (hd : lookup a d = some i) : astep a s d = a := by
+  simp [astep, hs, hd]
+
+open SleapVerif.Grouping in
+/-- Concrete witness on the path skeleton 0→1→2 with one animal: visiting edge (1,2) before (0,1)
+    loses the root part, the parent-first order keeps all three parts in one instance. -/
+theorem parent_first_needed :
+    lookup (assignRaw [((1,0),(2,0)), ((0,0),(1,0))]) (0,0) = none ∧
+    (lookup (assignRaw [((0,0),(1,0)), ((1,0),(2,0))]) (0,0) = some 0 ∧
+     lookup (assignRaw [((0,0),(1,0)), ((1,0),(2,0))]) (1,0) = some 0 ∧
+     lookup (assignRaw [((0,0),(1,0)), ((1,0),(2,0))]) (2,0) = some 0) := by decide
 
 end SleapVerif.C17
